@@ -256,11 +256,23 @@ pub fn worker_nest(case: &Value) -> Value {
     json!({"bad": bad, "error_free": ok})
 }
 
-fn soup_text(mut idx: usize, len: usize, sep: &str) -> String {
-    let n = ALPHABET.len();
+fn soup_text(idx: usize, len: usize, sep: &str) -> String {
+    soup_text_over(ALPHABET, idx, len, sep)
+}
+
+/// The lexically dangerous core of the alphabet (unterminated strings/comments/pragmas, typed
+/// literal prefixes, direct addresses, multi-byte characters, line endings, dots): longer soups
+/// (thorough tier) are enumerated over this sub-alphabet only.
+const CORE: &[&str] = &[
+    "'s", "'s'", "(*", "*)", "//c\n", "{p}", "{", "#", "INT#", "T#1s", "%IX0.0", "é", "😀", "\"w", "16#", "\r\n", "1", "1.5",
+    ".", "..", "x", "(", "IF", ";",
+];
+
+fn soup_text_over(alphabet: &[&str], mut idx: usize, len: usize, sep: &str) -> String {
+    let n = alphabet.len();
     let mut parts = Vec::with_capacity(len);
     for _ in 0..len {
-        parts.push(ALPHABET[idx % n]);
+        parts.push(alphabet[idx % n]);
         idx /= n;
     }
     parts.join(sep)
@@ -280,19 +292,25 @@ pub fn run(ctx: &Ctx) -> EngineResult {
     let mut err_free_texts = 0u64;
     let mut exhaustive = true;
 
-    // (i) token soups, simplest first: length 1..=L, separated by " " and glued
-    let max_len = ctx.tier.pick(4usize, 5usize);
-    let n = ALPHABET.len();
-    for len in 1..=max_len {
+    // (i) token soups, simplest first: length 1..=4 over the whole alphabet, separated by " " and
+    // glued; thorough: lengths 5 and 6 over the core sub-alphabet. The soups have their own share of
+    // the wall budget so that the families below always run.
+    let soup_deadline = Instant::now() + Duration::from_secs(ctx.tier.pick(30, 540));
+    let stages: Vec<(&[&str], usize)> = ctx.tier.pick(
+        vec![(ALPHABET, 1), (ALPHABET, 2), (ALPHABET, 3), (ALPHABET, 4)],
+        vec![(ALPHABET, 1), (ALPHABET, 2), (ALPHABET, 3), (ALPHABET, 4), (CORE, 5), (CORE, 6)],
+    );
+    for (alphabet, len) in stages {
+        let n = alphabet.len();
         let total = n.pow(len as u32);
         let chunk = 2000usize;
         let chunks: Vec<usize> = (0..total.div_ceil(chunk)).collect();
         for sep in [" ", ""] {
-            let res = par_map(&chunks, ctx.threads, stack, Some(deadline), |_, &c| {
+            let res = par_map(&chunks, ctx.threads, stack, Some(soup_deadline), |_, &c| {
                 let mut v = Vec::new();
                 let mut cnt = 0u64;
                 for idx in c * chunk..((c + 1) * chunk).min(total) {
-                    let text = soup_text(idx, len, sep);
+                    let text = soup_text_over(alphabet, idx, len, sep);
                     cnt += 1;
                     for (cl, d) in check_text(&text) {
                         v.push(viol(&cl, "soup", &d, json!({"kind":"parse","family":"soup","text":text})));
@@ -311,12 +329,13 @@ pub fn run(ctx: &Ctx) -> EngineResult {
             }
         }
         if !exhaustive {
-            rep.cap(format!("token soups: wall cap reached at length {len}"));
+            rep.cap(format!("token soups: wall cap reached at length {len} over {n} tokens"));
             break;
         }
         rep.set("soup_length_completed", len as u64);
+        rep.set("soup_alphabet_at_that_length", n as u64);
     }
-    rep.sample(json!({"family":"soup","text": soup_text(12345 % n.pow(3), 3, " ")}));
+    rep.sample(json!({"family":"soup","text": soup_text(12345 % ALPHABET.len().pow(3), 3, " ")}));
 
     eprintln!("[C12] soups done at {:.1}s", ctx.elapsed());
     // (ii) corpus: every char-boundary prefix; every single-token deletion / duplication / swap
@@ -414,7 +433,7 @@ pub fn run(ctx: &Ctx) -> EngineResult {
             }
         }
     }
-    if err_free_texts == 0 {
+    if err_free_texts == 0 && Instant::now() < deadline {
         return machinery("no error-free corpus file: trivia family vacuous");
     }
 
